@@ -20,7 +20,7 @@ RULE = (
 
 
 def evaluate(stats, text, expect_accept, desc=None, span=None, base_text=None):
-    r = emb.compile_files({"m.emb": text})
+    r = emb.compile_files({"m.emb": text, "o.emb": typed.OTHER_MODULE})
     case = {"text": text, "expect": "accept" if expect_accept else "reject", "mutation": desc}
     if r.exc:
         stats.fail(dict(kind="exception", **r.exc_sig), case, r.exc_text)
@@ -37,7 +37,7 @@ def evaluate(stats, text, expect_accept, desc=None, span=None, base_text=None):
     if r.accepted:
         stats.fail({"kind": "ill-typed-accepted", "site": desc["site"], "parent": desc["parent"], "had": desc["had"], "got": desc["got"]}, case, "mutation %r accepted" % (desc,))
         return "accepted"
-    probs = emb.check_error_shape(r, {"m.emb": text})
+    probs = emb.check_error_shape(r, {"m.emb": text, "o.emb": typed.OTHER_MODULE})
     for kind, t in probs:
         stats.fail({"kind": kind, "site": desc["site"]}, case, t)
     lines = [m.location.start.line for g in r.errors for m in g if not m.location.is_synthetic]
@@ -70,6 +70,16 @@ def shard(idx, seed, n):
                 continue
             o = evaluate(stats, text2, False, desc, spans2.get(tag))
             stats.case(text2, deep >= 3 and desc["where"] != "top", ["mutant", "mutant-" + o, "site:" + desc["site"], "parent:" + str(desc["parent"])], sample={"kind": "mutant", "mutation": desc, "text": text2[-700:]})
+        # one violation from the arity / argument-kind / attribute-value catalogue
+        name, tag, repl = rnd.choice(typed.LINE_VIOLATIONS)
+        text3, spans3 = render(S, {tag: repl})
+        desc = {"site": "catalogue:" + name, "where": "line", "parent": tag, "had": "-", "got": "-"}
+        n_extra = repl.count("\n")
+        span = spans3.get(tag)
+        if span:
+            span = (span[0], span[1] + n_extra)
+        o = evaluate(stats, text3, False, desc, span)
+        stats.case(text3, deep >= 3, ["catalogue", "catalogue-" + o, "rule:" + name], sample={"kind": "catalogue", "rule": name, "text": text3[-600:]})
 
     vlib.hyp_run(st.integers(0, 2**63), body, n, seed=seed * 1051 + idx)
     return stats
